@@ -24,6 +24,42 @@ import logging  # noqa
 logging.disable(logging.CRITICAL)
 
 
+def _replays_alone(prop_id, path):
+    import subprocess
+    p = subprocess.run([sys.executable, "-m", "pbt.run", prop_id, "--replay", path], cwd=VERIF_DIR, capture_output=True, text=True,
+                       env=dict(os.environ, PYTHONHASHSEED="0"))
+    return p.returncode == 1
+
+
+def _first_reproducing_alternate(prop_id, bucket, rec, seed):
+    """Replay the bucket's other recorded failing cases, each in a fresh process (8 at a time, smallest first); return the first that fails alone."""
+    from concurrent.futures import ThreadPoolExecutor
+    from pbt import core
+    alts = sorted((a for a in rec.get("alts", []) if a["case"] != rec["case"]), key=lambda a: a["size"])
+    if not alts:
+        return None
+    d = os.path.join(VERIF_DIR, "replays", prop_id)
+    paths = []
+    for i, a in enumerate(alts):
+        pth = os.path.join(d, core._safe(bucket) + f".alt{i}.json")
+        with open(pth, "w") as f:
+            json.dump({"property": prop_id, "bucket": bucket, "seed": seed, "case": a["case"], "detail": a["detail"]}, f, default=str)
+        paths.append(pth)
+    try:
+        with ThreadPoolExecutor(8) as ex:
+            results = list(ex.map(lambda pth: _replays_alone(prop_id, pth), paths))
+    finally:
+        for pth in paths:
+            try:
+                os.remove(pth)
+            except OSError:
+                pass
+    for a, ok in zip(alts, results):
+        if ok:
+            return a
+    return None
+
+
 def main(argv=None):
     ap = argparse.ArgumentParser()
     ap.add_argument("prop")
@@ -113,10 +149,17 @@ def main(argv=None):
         if len(confirmed) >= 3 or len(confirmed) + len(unreproduced) >= 10:
             unchecked.append((b, rec, path))
             continue
-        import subprocess
-        p = subprocess.run([sys.executable, "-m", "pbt.run", prop_id, "--replay", path], cwd=VERIF_DIR, capture_output=True, text=True,
-                           env=dict(os.environ, PYTHONHASHSEED="0"))
-        (confirmed if p.returncode == 1 else unreproduced).append((b, rec, path))
+        if _replays_alone(prop_id, path):
+            confirmed.append((b, rec, path))
+            continue
+        # the smallest failing case may only fail after other cases ran in the same process; try the other recorded cases of the bucket
+        alt = _first_reproducing_alternate(prop_id, b, rec, seed)
+        if alt is not None:
+            rec = dict(rec, case=alt["case"], detail=alt["detail"], size=alt["size"])
+            path = core.write_replay(prop_id, b, rec, seed)
+            confirmed.append((b, rec, path))
+        else:
+            unreproduced.append((b, rec, path))
     if confirmed:
         for b, rec, path in confirmed + unchecked:
             print(f"VIOLATION property={prop_id} replay={path}")
